@@ -32,7 +32,7 @@ UNSTABLE = {"visual", "permutate", "mutable", "smooth_shaded", "principal_inerti
             "is_convex", "face_angles_sparse",
             # 1 / sin of a dihedral angle: unbounded for nearly coplanar neighbours, not comparable at a tolerance
             "face_adjacency_radius"}
-MATRIX_CLASSES = ["rigid", "uscale", "mirror", "aniso", "shear", "neariden", "trans", "mirror_scale", "rhombic"]
+MATRIX_CLASSES = ["rigid", "uscale", "mirror", "aniso", "shear", "neariden", "trans", "mirror_scale", "rhombic", "aniso_small"]
 OPS = ["transform"] * 5 + ["invert", "faces_bool", "faces_int", "merge", "unref", "unmerge", "fix_normals", "inplace_v",
                             "reassign_f", "rezero", "scale", "translate", "density", "center_mass", "set_normals",
                             "process", "process_validate", "fill_holes", "inplace_f", "copy_edit", "inplace_then_translate",
@@ -225,7 +225,7 @@ def cases(ctx):
     for op in ("merge", "merge_norm", "unref", "unmerge", "fill_holes"):
         for start in ("soup", "boxsoup", "dupes", "open"):
             yield {"kind": "history", "start": start, "steps": [{"reads": ["vertex_normals", "face_normals"], "op": op, "seed": 5}]}
-    for op in ("transform:mirror", "transform:aniso", "transform:rigid", "transform:trans", "invert",
+    for op in ("transform:mirror", "transform:aniso", "transform:aniso_small", "transform:rigid", "transform:trans", "invert",
                "process_validate", "inplace_then_translate"):
         for k in ("face_normals", "vertex_normals", "edges", "edges_unique", "face_adjacency", "volume"):
             yield {"kind": "history", "start": "box", "steps": [{"reads": [k], "op": op, "seed": 7}]}
@@ -315,6 +315,8 @@ def _matrix(cls, r):
         return np.diag([-2.0, 2.0, 2.0, 1.0])
     if cls == "aniso":
         return R @ np.diag([1, 2, .5, 1.0])
+    if cls == "aniso_small":
+        return R @ np.diag([1e-5, 2e-5, .5e-5, 1.0])
     if cls == "shear":
         S = np.eye(4)
         S[0, 1] = .7
@@ -464,6 +466,9 @@ def _get(m, k):
 def run_case(c):
     keys = stable_keys()
     m = _start(c["start"])
+    # a twin that goes through the same mutators and is never read: what was read before a mutation must not change
+    # the data the mutation leaves behind
+    twin = _start(c["start"])
     stale = []
     done = []
     kept = []
@@ -485,6 +490,15 @@ def run_case(c):
             done.append({"op": st["op"], "exc": common.err_kind(e)})
             break
         done.append({"op": st["op"]})
+        if twin is not None:
+            try:
+                twin = _apply(twin, st["op"], st["seed"])
+                if not (_same(np.array(twin.vertices), np.array(m.vertices)) and _same(np.array(twin.faces), np.array(m.faces))):
+                    stale.append({"step": i, "op": st["op"], "key": "data-left-by-the-mutator-depends-on-earlier-reads",
+                                  "read_before": True, "reads_before": len(st["reads"])})
+                    twin = None
+            except Exception:
+                twin = None
         if len(m.faces) == 0:
             break
         f = _fresh(m)
